@@ -4,6 +4,42 @@ import (
 	"gonum.org/v1/gonum/mat"
 )
 
+// realEigenSystem returns the eigen values of a factorized rate matrix with real
+// right eigen vectors, and the left eigen vectors (inverse of the right ones).
+//
+// The eigen values of these reversible rate matrices are real, but a repeated
+// eigen value may come back from the numerical decomposition as a complex
+// conjugate pair (imaginary parts ~1e-17) with complex conjugate eigen vectors:
+// their real and imaginary parts are then two independent real eigen vectors
+// (taking the real part of both would give twice the same column).
+func realEigenSystem(eigen *mat.Eigen) (val []float64, leigenvect, reigenvect *mat.Dense, err error) {
+	var u mat.CDense
+
+	vals := eigen.Values(nil)
+	n := len(vals)
+	val = make([]float64, n)
+	for i, b := range vals {
+		val[i] = real(b)
+	}
+	eigen.VectorsTo(&u)
+	reigenvect = mat.NewDense(n, n, nil)
+	leigenvect = mat.NewDense(n, n, nil)
+	for j := 0; j < n; j++ {
+		pair := imag(vals[j]) != 0 && j+1 < n
+		for i := 0; i < n; i++ {
+			reigenvect.Set(i, j, real(u.At(i, j)))
+			if pair {
+				reigenvect.Set(i, j+1, imag(u.At(i, j)))
+			}
+		}
+		if pair {
+			j++
+		}
+	}
+	err = leigenvect.Inverse(reigenvect)
+	return
+}
+
 const (
 	DBL_MIN = 2.2250738585072014e-308
 )
